@@ -299,6 +299,12 @@ fn print(r: &Value) -> Vec<u8> {
             if let Some(code) = kitty_code(&r["k"]) {
                 o.extend(b"\x1b[");
                 o.extend(digits(code));
+                for a in r["alts"].as_array().map(|a| a.as_slice()).unwrap_or(&[]) {
+                    o.push(b':');
+                    if !a.is_null() {
+                        o.extend(digits(u(a)));
+                    }
+                }
                 if u(&r["mods"]) != 0 {
                     o.push(b';');
                     o.extend(digits(u(&r["mods"]) + 1));
@@ -548,7 +554,12 @@ fn c_report(r: &Value) -> String {
         "lit" => format!("(RLit {})", cbytes(&vbytes(&r["w"]))),
         "xterm" => format!("(RXterm {} {} {})", c_key(&r["k"]), u(&r["mods"]), b(&r["alt"])),
         "char" => format!("(RChar {})", u(&r["c"])),
-        "kitty" => format!("(RKittyKey {} {})", c_key(&r["k"]), u(&r["mods"])),
+        "kitty" => format!(
+            "(RKittyKey {} {} {})",
+            c_key(&r["k"]),
+            u(&r["mods"]),
+            clist(r["alts"].as_array().map(|a| a.as_slice()).unwrap_or(&[]).iter().map(|a| if a.is_null() { "None".to_string() } else { format!("(Some {})", u(a)) }))
+        ),
         "level" => format!("(RKeyLevel {})", u(&r["n"])),
         "mouse" => format!("(RMouse {} {} {} {})", u(&r["code"]), b(&r["press"]), u(&r["row"]), u(&r["col"])),
         "cursor" => format!("(RCursor {} {})", u(&r["row"]), u(&r["col"])),
@@ -774,7 +785,14 @@ fn g_report(rng: &mut Rng) -> Value {
                 }]),
             };
             let mods = if rng.chance(1, 3) { 0 } else if rng.chance(1, 2) { *rng.pick(&[1u64, 2, 4, 5, 7, 8, 64, 128, 255]) } else { rng.below(256) };
-            json!({"t": "kitty", "k": k, "mods": mods})
+            // "report alternate keys": shifted key and / or base layout key
+            let alts = match rng.below(5) {
+                0 => json!([65 + rng.below(26)]),
+                1 => json!([Value::Null, 97 + rng.below(26)]),
+                2 => json!([rng.below(0x2000), g_num(rng)]),
+                _ => json!([]),
+            };
+            json!({"t": "kitty", "k": k, "mods": mods, "alts": alts})
         }
         3 => json!({"t": "level", "n": g_num(rng)}),
         4 | 5 => json!({"t": "mouse", "code": if rng.chance(3, 4) { *rng.pick(&[0u64, 1, 2, 3, 64, 65]) + 4 * rng.below(8) + 32 * rng.below(2) } else { rng.below(256) },
@@ -926,7 +944,8 @@ pub fn generate(rng: &mut Rng, n: usize, tier: &str) -> Vec<Value> {
     // 5. kitty keys: functional codes x all 8 low modifier masks
     for k in [json!([0, 0]), json!([1, 0]), json!([2, 0]), json!([3, 0]), json!([4, 13]), json!([4, 35]), json!([5, 97]), json!([5, 0x20ac])] {
         for mods in [0u64, 1, 2, 3, 4, 5, 6, 7, 8, 16, 32, 64, 128, 255] {
-            v.push(json!({"reports": [{"t": "kitty", "k": k, "mods": mods}], "cuts": []}));
+            v.push(json!({"reports": [{"t": "kitty", "k": k, "mods": mods, "alts": []}, {"t": "kitty", "k": k, "mods": mods, "alts": [65, 97]},
+                                        {"t": "kitty", "k": k, "mods": mods, "alts": [Value::Null, 246]}], "cuts": []}));
         }
     }
     // 6. colours: every form x terminator x case, all 16 4-bit values, channel boundaries
